@@ -323,6 +323,24 @@ class Runner:
             if not np.array_equal(np.asarray(aid), exp):
                 self.violate('agent_marker_misplaced', where, f'{kind}:{rep_name}', f'agent_id_grid does not mark exactly the agent cell {(ay, ax)}')
                 return False
+        av = arrays.get('agent')
+        if av is not None and np.shape(av) == (6,) and kind == 'state':
+            # documented: position normalised between -1 and 1 (so it orders poses like the coordinates do and tells
+            # them apart), then a one-hot encoding of the orientation
+            ay, ax, hd = w['agent'][:3]
+            hot = [float(v) for v in av[2:]]
+            pose_code = tuple(float(v) for v in av)
+            p2c, c2p = cl.codes.setdefault(('agent_vector', rep_name, w['h'], w['w']), ({}, {}))
+            if sorted(hot) != [0.0, 0.0, 0.0, 1.0]:
+                self.violate('agent_vector_not_one_hot', where, f'{kind}:{rep_name}', f'orientation entries {hot}')
+                return False
+            if p2c.setdefault((ay, ax, hd), pose_code) != pose_code or c2p.setdefault(pose_code, (ay, ax, hd)) != (ay, ax, hd):
+                self.violate('agent_vector_not_faithful', where, f'{kind}:{rep_name}', f'pose {(ay, ax, hd)} encoded as {pose_code}; table has {p2c.get((ay, ax, hd))} / {c2p.get(pose_code)}')
+                return False
+            for (py, px, phd), code in p2c.items():
+                if (py < ay and not code[0] < pose_code[0]) or (py > ay and not code[0] > pose_code[0]) or (px < ax and not code[1] < pose_code[1]) or (px > ax and not code[1] > pose_code[1]):
+                    self.violate('agent_vector_not_monotone', where, f'{kind}:{rep_name}', f'poses {(py, px)} -> {code[:2]} and {(ay, ax)} -> {pose_code[:2]}')
+                    return False
         self.ctx.probe('faithful_codes_checked')
         return True
 
